@@ -28,7 +28,7 @@ ASSUMPTIONS = ["canonical rendering: single spaces, upper-case keywords, ';' glu
 KW = set("CREATE TABLE IF NOT EXISTS NULL DEFAULT PRIMARY KEY UNIQUE REFERENCES ON DELETE UPDATE CONSTRAINT CHECK ALTER ADD FOREIGN INDEX "
          "ASC DESC SEQUENCE INCREMENT BY START WITH MINVALUE NO MAXVALUE CACHE EXTERNAL COMMENT PARTITIONED STORED AS LOCATION "
          "TBLPROPERTIES ROW FORMAT FIELDS TERMINATED DROP COLUMN RENAME TO MODIFY IN ORDER NOORDER ONLY GLOBAL TEMPORARY IDENTITY "
-         "GENERATED ALWAYS AUTOINCREMENT COLLATE CLUSTERED".split())
+         "GENERATED ALWAYS AUTOINCREMENT COLLATE CLUSTERED LIKE ENGINE CHARSET".split())
 BASE_T = "CREATE TABLE Sch.Tbl ( Id INT , Name INT , Amount INT ) ;"
 STM = {
     "table": ("", "CREATE TABLE IF NOT EXISTS Sch.Tbl ( Id INT NOT NULL DEFAULT 5 , Name VarChar ( 20 ) PRIMARY KEY , Amount DECIMAL ( 10 , 2 ) "
@@ -58,6 +58,9 @@ STM = {
     "names": ("", "CREATE TABLE settings.created ( remote_id int , dropped_at int , altered int , used_by int , gone int , inserted int , "
                   "granted int , deleted_at int , begin_ts int , end_ts int , commit_id int , prompt_x int , executed int , printed int , "
                   "PRIMARY KEY ( remote_id , dropped_at ) ) ;"),
+    # wave 7: a LIKE table followed by after-columns keywords of more than 10 letters; a one-line table with 12 string literals and '=' options
+    "like": ("", "CREATE EXTERNAL TABLE IF NOT EXISTS db.Events_Copy LIKE db.Events_Template LOCATION '/data/Events' TBLPROPERTIES ( 'Owner' = 'etl' ) ;"),
+    "manylits": ("", "CREATE TABLE Tm ( " + " , ".join("c%d varchar ( 9 ) DEFAULT 'v~%d' NOT NULL" % (i, i) for i in range(12)) + " ) ENGINE = InnoDB DEFAULT CHARSET = utf8 ;"),
     "seq2": ("", "CREATE SEQUENCE settings.dropped_rows_seq INCREMENT BY 5 START WITH 10 ;"),
     "seq": ("", "CREATE SEQUENCE Sch.Sq INCREMENT BY 5 START WITH 10 MINVALUE 1 NO MAXVALUE CACHE 20 NOORDER ;"),
 }
@@ -142,6 +145,13 @@ def gen_cases(tier):
         cases.append({"kind": "stm", "stm": name, "gaps": {}, "cases": {}})
         for u in UNIFORM:
             cases.append({"kind": "stm", "stm": name, "uniform": u})
+            cases.append({"kind": "stm", "stm": name, "uniform": u, "loud": True})  # silent=False: a layout must not turn into an error
+        # blank lines (1..4, also holding blanks / CRLF) before the first statement, between the statements and after the last one
+        for k in (1, 2, 3, 4):
+            for where in ("lead", "between", "trail", "all"):
+                for fill in ("", "  ", "\r"):
+                    for loud in (False, True):
+                        cases.append({"kind": "stm", "stm": name, "gaps": {}, "cases": {}, "blank": [where, k, fill], "loud": loud})
         gapdevs = []
         nl = nl_gaps(s)
         for i in range(1, len(tk)):
@@ -196,6 +206,19 @@ def build(case):
         if "\n" in sp and tk[i][0].upper() in LINEWORDS and i not in nl:
             skip = True
     join = "\r\n" if any("\r" in g for g in gaps.values()) else "\n"
+    if case.get("blank"):
+        where, k, fill = case["blank"]
+        eol = "\r\n" if fill == "\r" else "\n"
+        pad = ("" if fill == "\r" else fill) + eol
+        lines = (pre.split("\n") if pre else []) + txt.split("\n")
+        out = []
+        for n, l in enumerate(lines):
+            # (between: in front of every line that starts a statement, i.e. every line but the first)
+            if n > 0 and where in ("between", "all"):
+                out.extend([pad] * k)
+            out.append(l + eol)
+        full = (pad * k if where in ("lead", "all") else "") + "".join(out) + (pad * k if where in ("trail", "all") else "")
+        return full, (pre + "\n" + canon if pre else canon), skip
     return (pre + join + txt if pre else txt), (pre + "\n" + canon if pre else canon), skip
 
 
@@ -276,8 +299,9 @@ def evaluate(case):
     txt, canon, skip = build(case)
     if skip:
         return {"diffs": [], "skipped": True}
-    ref = run_ddl(canon)
-    got = run_ddl(txt)
+    ctor = {"silent": False} if case.get("loud") else None
+    ref = run_ddl(canon, ctor)
+    got = run_ddl(txt, ctor)
     diffs = []
     if ref[0] != "ok" or not ref[1] or not isinstance(ref[1], list):
         diffs.append(diff("canonical rendering of " + case["stm"], "canonical-not-parsed", "non-empty result", short(ref)))
@@ -313,4 +337,4 @@ def snippet(case):
         return _snip(transform(rec["ddl"], case["tf"]), {k: v for k, v in rec["init"].items() if k == "normalize_names"},
                      {k: v for k, v in rec["run"].items() if k in ("output_mode", "group_by_type")})
     txt, canon, _ = build(case)
-    return _snip(txt) + "# must equal the result for the canonical rendering:\n# %r\n" % canon
+    return _snip(txt, {"silent": False} if case.get("loud") else None) + "# must equal the result for the canonical rendering:\n# %r\n" % canon
